@@ -122,6 +122,19 @@ Theorem C12_qc_bytes_name_signers : forall q1 q2,
 Proof. exact qc_bytes_inj. Qed.
 Print Assumptions C12_qc_bytes_name_signers.
 
+(* for multi-signature certificates (ECDSA, EdDSA) the bytes name every (signer, signature) entry: after
+   fixes/C12-multi-bytes-frame-signatures.patch Multi.ToBytes precedes each signature by its length
+   ([entries_ok]: every signature is shorter than 2^32 bytes) *)
+Theorem C12_qc_bytes_name_entries : forall q1 q2,
+  length (qc_hash q1) = 32%nat -> length (qc_hash q2) = 32%nat ->
+  qc_view q1 < 2^64 -> qc_view q2 < 2^64 -> ids_ok (qc_sig q1) -> ids_ok (qc_sig q2) ->
+  sig_is_multi (qc_sig q1) = true -> sig_is_multi (qc_sig q2) = true ->
+  entries_ok (sig_entries (qc_sig q1)) -> entries_ok (sig_entries (qc_sig q2)) ->
+  qc_bytes q1 = qc_bytes q2 ->
+  qc_view q1 = qc_view q2 /\ qc_hash q1 = qc_hash q2 /\ sig_entries (qc_sig q1) = sig_entries (qc_sig q2).
+Proof. exact qc_bytes_name_entries. Qed.
+Print Assumptions C12_qc_bytes_name_entries.
+
 (* equal block bytes name the signers of a signed certificate whatever the batches are (the participant
    section is read back from the end of the bytes) ... *)
 Theorem C12_block_bytes_name_signers : forall b1 b2,
@@ -180,6 +193,17 @@ Theorem C12_unframed_block_bytes_refuted :
     block_bytes b1 <> block_bytes b2.
 Proof. exact unframed_block_bytes_refuted. Qed.
 Print Assumptions C12_unframed_block_bytes_refuted.
+
+(* nor did the certificate bytes with the signatures back to back name one certificate: the same signers
+   carrying the same bytes cut at other boundaries (signer 1 carrying two signatures, signer 2 none) *)
+Theorem C12_unframed_signature_bytes_refuted :
+  exists b1 b2, wf_block (fun _ => None) b1 = true /\ wf_block (fun _ => None) b2 = true /\
+    block_bytes_v2 b1 = block_bytes_v2 b2 /\
+    sig_ids (qc_sig (b_cert b1)) = sig_ids (qc_sig (b_cert b2)) /\
+    sig_entries (qc_sig (b_cert b1)) <> sig_entries (qc_sig (b_cert b2)) /\
+    block_bytes b1 <> block_bytes b2.
+Proof. exact unframed_signature_bytes_refuted. Qed.
+Print Assumptions C12_unframed_signature_bytes_refuted.
 
 (* ---- non-vacuity: concrete well-formed objects of each scheme, and the hypotheses are not idle ---- *)
 Definition ex_decode (s : bytes) : option bytes := if bytes_eqb s [192; 0; 1] then Some s else None.
